@@ -429,4 +429,58 @@ func c14ValidationHandler(c *core.Ctx) {
 			}
 		}
 	}
+	// a handler whose document is loaded again (a new file) and whose callbacks are set after the middleware chain was built:
+	// the chain gates requests by what the handler holds at the time of the request
+	doc2 := c14Doc()
+	paths := doc2["paths"].(gen.S)
+	paths["/n"] = paths["/m"]
+	delete(paths, "/m")
+	file2 := filepath.Join(dir, "doc2.json")
+	if os.WriteFile(file2, []byte(gen.Canon(doc2)), 0o644) != nil {
+		return
+	}
+	calls := 0
+	inner := c14Handler([]c14op{{"hdr-ct", 0}, {"hdr-req", 0}, {"write-valid", 0}}, &calls)
+	vh := &openapi3filter.ValidationHandler{Handler: inner, File: file}
+	if vh.Load() != nil {
+		return
+	}
+	chain := vh.Middleware(inner)
+	vh.File = file2
+	if err := vh.Load(); err != nil {
+		c.Note("ValidationHandler second Load: %v", err)
+		return
+	}
+	encoderCalls := 0
+	vh.ErrorEncoder = func(_ context.Context, _ error, w http.ResponseWriter) {
+		encoderCalls++
+		w.WriteHeader(http.StatusTeapot)
+	}
+	for _, cls := range []struct {
+		name, target string
+		run          bool
+	}{{"path of the first document", "http://h.t/m?x=1", false}, {"path of the second document", "http://h.t/n?x=1", true}, {"invalid for the second document", "http://h.t/n?x=abc", false}} {
+		calls, encoderCalls = 0, 0
+		rec := httptest.NewRecorder()
+		req := httptest.NewRequest("GET", cls.target, nil)
+		desc := "ValidationHandler.Middleware built before a second Load and a later ErrorEncoder: " + cls.name
+		c.Begin(desc)
+		c.Eval()
+		w := c14Witness{Request: "GET " + cls.target, Wrapper: "ValidationHandler.Middleware (handler reloaded afterwards)"}
+		if pi := core.Guard(func() { chain.ServeHTTP(rec, req) }); pi != nil {
+			c.Violate(core.PanicFeatures(pi), w, pi.Stack)
+			continue
+		}
+		c.Distinct(desc)
+		c.Cover("validation_handler", "reloaded:"+cls.name)
+		w.HandlerN = calls
+		if (calls == 1) != cls.run {
+			w.Got, w.Want = fmt.Sprint(calls), fmt.Sprint(cls.run)
+			c.Violate(map[string]string{"kind": "validation_handler_gate", "request": cls.name, "history": "reloaded-after-middleware-was-built"}, w, desc)
+		}
+		if !cls.run && (encoderCalls != 1 || rec.Code != http.StatusTeapot) {
+			w.Got, w.Want = fmt.Sprintf("encoder calls=%d status=%d", encoderCalls, rec.Code), "the handler's current ErrorEncoder answers (418)"
+			c.Violate(map[string]string{"kind": "validation_handler_error_encoder", "request": cls.name, "history": "reloaded-after-middleware-was-built"}, w, desc)
+		}
+	}
 }
